@@ -116,15 +116,21 @@ def ensure_makefile(tag, dirs):
     return f'Makefile.{tag}'
 
 
-def make(targets, tag='all', dirs=None, jobs=16, keep_going=False):
-    """Full .vo build (never -vos) of the given targets and whatever they depend on."""
-    with Lock():
-        mk = ensure_makefile(tag, dirs)
-        cmd = ['timeout', str(COQ_TIMEOUT), 'make', '-f', mk, f'-j{jobs}', '--no-print-directory']
-        if keep_going:
-            cmd.append('-k')
-        p = subprocess.run(cmd + targets, cwd=env.COQ, stdout=subprocess.PIPE, stderr=subprocess.STDOUT, text=True)
+def _make_locked(targets, tag, dirs, jobs, keep_going):
+    mk = ensure_makefile(tag, dirs)
+    cmd = ['timeout', str(COQ_TIMEOUT), 'make', '-f', mk, f'-j{jobs}', '--no-print-directory']
+    if keep_going:
+        cmd.append('-k')
+    p = subprocess.run(cmd + targets, cwd=env.COQ, stdout=subprocess.PIPE, stderr=subprocess.STDOUT, text=True)
     return p.returncode == 0, p.stdout
+
+
+def make(targets, tag='all', dirs=None, jobs=16, keep_going=False, locked=False):
+    """Full .vo build (never -vos) of the given targets and whatever they depend on (locked=True: the caller holds the lock)."""
+    if locked:
+        return _make_locked(targets, tag, dirs, jobs, keep_going)
+    with Lock():
+        return _make_locked(targets, tag, dirs, jobs, keep_going)
 
 
 def property_targets(pid, deps=()):
@@ -201,13 +207,21 @@ def first_error(log):
 def check_proofs(pid, scratch, deps=(), files=('Properties.v',)):
     """make the property's theories, then ask for fresh assumptions.  Returns a dict for the evidence."""
     t0 = time.time()
+    # the removal of the statement files, the build and the fresh Print Assumptions form one critical section: another check
+    # running at the same time (same property under another seed, or a property depending on this one) must never see a
+    # statement file that is missing or half written
+    with Lock():
+        return _check_proofs_locked(pid, scratch, deps, files, t0)
+
+
+def _check_proofs_locked(pid, scratch, deps, files, t0):
     targets = property_targets(pid, deps)
     # always recompile the statement files so that Print Assumptions output in the log is fresh
     for fname in files:
         vo = os.path.join(env.THEORIES, pid, fname + 'o')
         if os.path.exists(vo):
             os.remove(vo)
-    ok, log = make(targets, tag=pid, dirs=['Common'] + list(deps) + [pid])
+    ok, log = make(targets, tag=pid, dirs=['Common'] + list(deps) + [pid], locked=True)
     names = [n for f in files for n in theorem_names(pid, f)]
     res = {'ok': ok, 'obligations': len(names), 'discharged': 0, 'theorems': [], 'error': None,
            'checker_cmd': f'make -C coq -j16 {" ".join(targets[-3:])} (full .vo) ; coqc Assumptions_{pid}.v',
